@@ -187,6 +187,13 @@ Print Assumptions C03_maps_keyed_by_original.
    conjuncts were false: C03_mem_map_refuted := exists nl m, In m (used_mems nl) /\
    mem_map_lookup (MOrig m) (mem_map nl) = None (the testbench's KeyError). *)
 
+(* the source-text gates of py/genfrag_C03.py passed on this run: the control
+   skeletons of _decompose / _replace_op, the op -> generator table and the
+   construction of mem_map in /repo are the ones Pass/Synth.v mirrors *)
+Example C03_source_skeletons_unchanged :
+  g_decompose_skeleton_ok = true /\ g_mem_map_keyed_by_original = true.
+Proof. split; reflexivity. Qed.
+
 (* non-vacuity / regression examples *)
 
 (* a design with a full-width subtract, a multiplier, a comparison, a mux, a
